@@ -2800,7 +2800,7 @@ TARGETS = [
     Target("ep2", strat_ep2, run_ep2, _cfgs(["base256"], ["base256", "p381"]), quick=10000, thorough=50000),
     Target("eb", strat_eb, run_eb, _cfgs(["base256"], ["base256", "fb-163", "fb-233", "fb-409", "fb-571"]), quick=14000, thorough=40000),
     Target("fp", strat_fp, run_fp, _cfgs(["base256"], ["base256", "p255", "p381", "fp-basic"]), quick=20000, thorough=80000),
-    Target("ed", strat_ed, run_ed, _cfgs([], ["p255"]), quick=1, thorough=60000),
+    Target("ed", strat_ed, run_ed, _cfgs(["p255"], ["p255"]), quick=8000, thorough=60000),
     # 16 libFuzzer campaigns (one per job; the campaign runs while the strategy is built, its crash artefacts and a
     # sample of its corpus are the cases); thorough tier only
     Target("fuzz", strat_fuzz, run_fuzz, _cfgs([], [FUZZ_CFG]), quick=1, thorough=16 * 2500 - 2000),
